@@ -97,21 +97,31 @@ func (f *STFS) Create(name string) (afero.File, error) {
 
 	name = cleanName(name)
 
-	if parent, err := inventory.Stat(
-		f.metadata,
+	// The index must only be used while holding the lock; OpenFile takes it again and re-checks the parent
+	if err := func() error {
+		f.ioLock.Lock()
+		defer f.ioLock.Unlock()
 
-		filepath.Dir(name),
-		false,
+		if parent, err := inventory.Stat(
+			f.metadata,
 
-		f.onHeader,
-	); err != nil {
-		if err == sql.ErrNoRows {
-			return nil, os.ErrNotExist
+			filepath.Dir(name),
+			false,
+
+			f.onHeader,
+		); err != nil {
+			if err == sql.ErrNoRows {
+				return os.ErrNotExist
+			}
+
+			return err
+		} else if parent.Typeflag != tar.TypeDir {
+			return config.ErrIsFile
 		}
 
+		return nil
+	}(); err != nil {
 		return nil, err
-	} else if parent.Typeflag != tar.TypeDir {
-		return nil, config.ErrIsFile
 	}
 
 	return f.OpenFile(name, os.O_RDWR|os.O_CREATE|os.O_TRUNC, 0666)
